@@ -120,6 +120,9 @@ struct EofInterrupt {
     data: Arc<Vec<u8>>,
     pos: usize,
     target: Option<usize>,
+    /// `target == None`: number of injections left (a reader that restarts a multi-call step on Interrupted
+    /// observes the end again and again: an unbounded "before every observation" would never let it finish).
+    budget: usize,
     /// End-of-input observations delivered so far (calls that returned Ok(0)).
     eof_seen: usize,
     just_injected: bool,
@@ -129,7 +132,7 @@ struct EofInterrupt {
 
 impl EofInterrupt {
     fn new(data: Arc<Vec<u8>>, target: Option<usize>) -> Self {
-        Self { data, pos: 0, target, eof_seen: 0, just_injected: false, log: Arc::new(Mutex::new(Vec::new())) }
+        Self { data, pos: 0, target, budget: 0, eof_seen: 0, just_injected: false, log: Arc::new(Mutex::new(Vec::new())) }
     }
 }
 
@@ -147,10 +150,11 @@ impl Read for EofInterrupt {
         }
         let inject = !self.just_injected
             && match self.target {
-                None => true,
+                None => self.budget > 0,
                 Some(t) => t == self.eof_seen,
             };
         if inject {
+            self.budget = self.budget.saturating_sub(1);
             self.just_injected = true;
             self.log.lock().unwrap().push(usize::MAX);
             return Err(io::Error::from(io::ErrorKind::Interrupted));
@@ -1057,13 +1061,20 @@ fn main() {
                 let target = if j < row.n_eof { Some(j) } else { None };
                 let name = match target {
                     Some(e) => format!("Interrupted in place of end-of-input observation {e} (of {} in the fault-free run), then the call is answered normally", row.n_eof),
-                    None => "Interrupted before every end-of-input observation".to_string(),
+                    None => format!("Interrupted before each of the first {} end-of-input observations", row.n_eof),
                 };
                 ch.desc(|| format!("doc={} api={:?} wrap={} {name}", d.name, row.api, row.wrap.name()));
-                let src = EofInterrupt::new(d.bytes.clone(), target);
+                if std::env::var_os("C12_TRACE").is_some() {
+                    eprintln!("[eof] start {i} doc={} api={:?} wrap={} {target:?}", d.name, row.api, row.wrap.name());
+                }
+                let mut src = EofInterrupt::new(d.bytes.clone(), target);
+                src.budget = row.n_eof;
                 let env = src.log.clone();
                 let log = vnd::read_log(d.format, src, &opts(d, row.api, row.wrap));
                 let env = env.lock().unwrap().clone();
+                if std::env::var_os("C12_TRACE").is_some() {
+                    eprintln!("[eof] done {i}");
+                }
                 ch.obs_hash((row.doc, row.api, row.wrap, &env));
                 ch.steps(env.len() as u64);
                 if env.contains(&usize::MAX) {
